@@ -11,14 +11,16 @@ from .common import Vals, Stubs, real_env, I, cls_name
 
 MANIFEST_ENTRY = {
     'category': 'proof',
-    'text': 'pow on ints, sum over int lists, range, the 32-bit bitwise natives (shift counts 0..63 enumerated, word symbolic) are proved equal to their mathematical definitions for all integers with loop invariants; zip/zip_map symbolic-bounded; the library functions written in Checkerlang (set algebra, unique, reverse, flatten, grouped, filter, map_list, reduce, prod, enumerate, chunks, pairs, interval, min/max, mean/median*, gcd/lcm/abs/sign) are checked by bounded runtime contracts against host-language oracles over all permutations of small inputs; grouped with NULL elements and NULL keys in the stand-in; mean gives the identical float for every arrangement; gcd/lcm on the whole signed domain including zero; empty sum and product (bounded); abs, sign, gcd and lcm of math.ckl are proved for all ints on the module\'s real AST (the real interpreter code executed symbolically over the nodes the real parser built; gcd by induction on |b| against the defining equations of Euclid\'s function)',
+    'text': 'pow on ints, sum over int lists, range, the 32-bit bitwise natives (shift counts 0..63 enumerated, word symbolic) are proved equal to their mathematical definitions for all integers with loop invariants; zip/zip_map symbolic-bounded; the library functions written in Checkerlang (set algebra, unique, reverse, flatten, grouped, filter, map_list, reduce, prod, enumerate, chunks, pairs, interval, min/max, mean/median*, gcd/lcm/abs/sign) are checked by bounded runtime contracts against host-language oracles over all permutations of small inputs; grouped with NULL elements and NULL keys in the stand-in; mean gives the identical float for every arrangement; gcd/lcm on the whole signed domain including zero; empty sum and product (bounded); abs, sign, gcd and lcm of math.ckl are proved for all ints on the module\'s real AST (the real interpreter code executed symbolically over the nodes the real parser built; gcd by induction on |b| against the defining equations of Euclid\'s function); reverse, unique, prod, reduce, flatten, filter, map_list, append_all, pairs, enumerate, zip and the four set operations are decided on the modules\' real AST for lists / sets of <= 3 symbolic ints (every choice of values, equal or not; symbolic-bounded in the length)',
     'note': 'x ** y and & | ^ of CPython trusted (uninterpreted, named in the spec); Checkerlang library code is outside the VC generator (bounded only)',
     'technique': 'deductive verification: pyvc VCs from the real AST + z3/cvc5 (loop invariants); bounded runtime contracts for CKL library code',
 }
 PROPERTY = "C19"
 LEVEL = "proof"
 TRUSTED = ["CPython integer power x ** y (exponents >= 9 are an uninterpreted function shared by spec and code; 0..8 expanded)",
-           "CPython & | ^ on ints (uninterpreted, shared by spec and code); x & (2^m-1) == x mod 2^m; disjoint-bit | is +"]
+           "CPython & | ^ on ints (uninterpreted, shared by spec and code); x & (2^m-1) == x mod 2^m; disjoint-bit | is +",
+           "contracts/cklsym.py: the heap the real interpreter builds natively when it loads a module (CPython executing the real lexer, parser and "
+           "NodeRequire) is copied object by object into the engine's heap (same classes, same attributes, sharing preserved)"]
 ASSUMPTIONS = ["bit functions: arguments are 32-bit words 0 <= a < 2^32 as their documentation says; shift counts 0..63 enumerated",
                "sum with an ignore list / decimals, zip, zip_map: symbolic-bounded (stated per unit)",
                "library functions written in Checkerlang with loops: bounded runtime contracts only; abs/sign/gcd/lcm: proved on the module's real AST "
@@ -513,6 +515,118 @@ def units(w):
                               bounded="lists of <= 3 elements (symbolic values; ints of mean/median within +-2^50)",
                               replay=replay_lang([("require Stat; Stat->mean([0.1, 0.2, 0.3]) == Stat->mean([0.3, 0.2, 0.1])", "TRUE"),
                                                   ("require Stat; Stat->median_low([3, 1, 2])", "2"), ("require Stat; Stat->median_high([4, 1, 3, 2])", "3")])))
+
+    # ---- list and set functions written in Checkerlang (loops): on the module's real AST with lists / sets of n <= 3 *symbolic* ints
+    #      (the loops of the interpreted program run over a spine of known length; the element values are arbitrary - this decides
+    #      the textbook definition for every choice of values, equal or not, which the stand-ins only sample)
+    def session_call(it, text, bindings):
+        I = cklsym.native_session(("Math", "Stat", "List", "Set"))
+        R = cklsym.Reflector(w)
+        R.seed_singletons(_sys.modules["ckl.values"])
+        env = R.reflect(I.environment)
+        call = R.reflect(_sys.modules["ckl.parser"].parse_script(text, "unit"))
+        return it.call(w.func("nodes.py::NodeBlock.evaluate") if cls_name(call) == "NodeBlock" else w.func(f"nodes.py::{cls_name(call)}.evaluate"),
+                       [call, real_env(w, it, bindings, parent=env)])
+
+    def ints(it, prefix, n):
+        return [V.int(it, f"{prefix}{i}") for i in range(n)]
+
+    def zv(v):
+        return zi(v.fields["value"])
+
+    def as_int_list(it, v):
+        """z3 terms of a language list of ints (None if it is not one)"""
+        if cls_name(v) != "ValueList" or v.fields["value"].items is None:
+            return None
+        out = []
+        for e in v.fields["value"].items:
+            if cls_name(e) != "ValueInt":
+                return None
+            out.append(zv(e))
+        return out
+
+    def seq_of(terms):
+        r = z3.Empty(z3.SeqSort(z3.IntSort()))
+        for t in terms:
+            r = z3.Concat(r, z3.Unit(t)) if not isinstance(t, tuple) else z3.Concat(r, z3.If(t[0], z3.Unit(t[1]), z3.Empty(z3.SeqSort(z3.IntSort()))))
+        return r
+
+    def list_unit(fname, text, n, spec, arity=1):
+        """spec(xs[, ys]) -> list of terms or (condition, term) pairs: the expected result as a sequence"""
+        def setup(it):
+            xs, ys = ints(it, "x", n), ints(it, "y", n if arity == 2 else 0)
+            binds = {"a": V.list_of(it, xs, "a")}
+            if arity == 2:
+                binds["b"] = V.list_of(it, ys, "b")
+            it.ghost["res"] = session_call(it, text, binds)
+            it.ghost["xs"], it.ghost["ys"] = xs, ys
+            return [], {}, {}
+
+        def post(it, c, o):
+            r = it.ghost["res"]
+            got = as_int_list(it, r)
+            it.check("post:returns-a-list-of-the-elements", got is not None)
+            if got is not None:
+                want = spec([zv(x) for x in it.ghost["xs"]], [zv(y) for y in it.ghost["ys"]])
+                it.check("post:equals-the-textbook-definition-for-every-choice-of-element-values", seq_of(got) == seq_of(want))
+        return Unit("nodes.py::invoke", setup, post, body=lambda it, c: Outcome("return", None), name=f"{fname}[real module source, {n} symbolic ints]",
+                    bounded="lists of <= 3 elements (values symbolic)", replay=replay_lang([("require List; List->reverse([1, 2, 3])", "[3, 2, 1]")]))
+
+    def set_unit(fname, text, n, member_spec):
+        """member_spec(v, in_a, in_b) -> z3 Bool: v belongs to the result"""
+        def setup(it):
+            xs, ys = ints(it, "x", n), ints(it, "y", n)
+            for grp in (xs, ys):      # a set holds no two equal elements (object invariant of the inputs); across the two sets anything goes
+                if len(grp) > 1:
+                    it.assume(z3.Distinct(*[zv(g) for g in grp]))
+            it.ghost["res"] = session_call(it, text, {"a": V.set_of(it, xs, "a"), "b": V.set_of(it, ys, "b")})
+            it.ghost["xs"], it.ghost["ys"] = xs, ys
+            return [], {}, {}
+
+        def post(it, c, o):
+            r = it.ghost["res"]
+            ok = cls_name(r) == "ValueSet" and all(cls_name(e) == "ValueInt" for e in r.fields["value"].items)
+            it.check("post:returns-a-set-of-ints", ok)
+            if not ok:
+                return
+            got = [zv(e) for e in r.fields["value"].items]
+            xs, ys = [zv(x) for x in it.ghost["xs"]], [zv(y) for y in it.ghost["ys"]]
+            mem = lambda v, lst: z3.Or(*[v == t for t in lst]) if lst else z3.BoolVal(False)
+            conds = []
+            for v in xs + ys:
+                conds.append(mem(v, got) == member_spec(mem(v, xs), mem(v, ys)))
+            for g in got:
+                conds.append(z3.Or(mem(g, xs), mem(g, ys)))
+            conds.append(z3.Distinct(*got) if len(got) > 1 else z3.BoolVal(True))
+            it.check("post:exactly-the-set-theoretic-result(members, nothing else, no element twice)", z3.And(*conds))
+        return Unit("nodes.py::invoke", setup, post, body=lambda it, c: Outcome("return", None), name=f"{fname}[real module source, sets built from {n}+{n} symbolic ints]",
+                    bounded="sets built from <= 2 + 2 elements (values symbolic, equal or not)", replay=replay_lang([("require Set; Set->diff(<<1, 2>>, <<2>>)", "<<1>>")]))
+
+    def spec_unique(xs, ys):
+        out = []
+        for i, x in enumerate(xs):
+            out.append((z3.And(*[x != xs[j] for j in range(i)]) if i else z3.BoolVal(True), x))
+        return out
+    LISTFUNS = [("list.ckl::reverse", "List->reverse(a)", 1, lambda xs, ys: list(reversed(xs))),
+                ("list.ckl::unique", "List->unique(a)", 1, spec_unique),
+                ("list.ckl::prod", "[List->prod(a)]", 1, lambda xs, ys: [z3.Product(*xs) if len(xs) > 1 else (xs[0] if xs else z3.IntVal(1))]),
+                ("list.ckl::reduce", "[List->reduce([0] + a, sub)]", 1, lambda xs, ys: [0 - z3.Sum(*xs) if len(xs) > 1 else (0 - xs[0] if xs else z3.IntVal(0))]),
+                ("list.ckl::flatten", "List->flatten([a, 7, b, [8]])", 2, lambda xs, ys: xs + [z3.IntVal(7)] + ys + [z3.IntVal(8)]),
+                ("list.ckl::filter", "List->filter(a, fn(v) v > 0)", 1, lambda xs, ys: [(x > 0, x) for x in xs]),
+                ("list.ckl::map_list", "List->map_list(a, fn(v) v * 2 + 1)", 1, lambda xs, ys: [x * 2 + 1 for x in xs]),
+                ("list.ckl::append_all", "do def t = [5]; List->append_all(t, a); t end", 1, lambda xs, ys: [z3.IntVal(5)] + xs),
+                ("core.ckl::pairs", "List->flatten(pairs(a))", 1, lambda xs, ys: [t for i in range(len(xs) - 1) for t in (xs[i], xs[i + 1])]),
+                ("core.ckl::enumerate", "List->flatten(enumerate(a))", 1, lambda xs, ys: [t for i, x in enumerate(xs) for t in (z3.IntVal(i), x)]),
+                ("core.ckl::zip", "List->flatten(zip(a, b))", 2, lambda xs, ys: [t for x, y in zip(xs, ys) for t in (x, y)])]
+    for fname, text, ar, spec in LISTFUNS:
+        for n in (0, 1, 2, 3):
+            U.append(list_unit(fname, text, n, spec, ar))
+    for fname, text, mspec in (("set.ckl::union", "Set->union(a, b)", lambda ina, inb: z3.Or(ina, inb)),
+                               ("set.ckl::intersection", "Set->intersection(a, b)", lambda ina, inb: z3.And(ina, inb)),
+                               ("set.ckl::diff", "Set->diff(a, b)", lambda ina, inb: z3.And(ina, z3.Not(inb))),
+                               ("set.ckl::symmetric_diff", "Set->symmetric_diff(a, b)", lambda ina, inb: z3.Xor(ina, inb))):
+        for n in (1, 2):
+            U.append(set_unit(fname, text, n, mspec))
 
     return U
 
